@@ -15,8 +15,8 @@ import (
 // Probed non-destructively on discarded branches after every step.
 type monC05 struct{}
 
-func newMonC05() *monC05      { return &monC05{} }
-func (m *monC05) Name() string { return "C05" }
+func newMonC05() *monC05           { return &monC05{} }
+func (m *monC05) Name() string     { return "C05" }
 func (m *monC05) Finish(r *Runner) {}
 
 func (m *monC05) classify(r *Runner, s *Snap, pk PosKey, op, errs string) string {
